@@ -951,6 +951,11 @@ def build_unit(unit_dir, out_dir):
             start_body()
             emit_fn(em, info, unit, cur_source, d, typemap)
             continue
+        if kind == "versionexprs":
+            start_body()
+            import vxver
+            vxver.emit(sys.modules[__name__], em, info, unit, d, REPO)
+            continue
         raise VxError(f"unit.vx:{d.lineno}: unknown directive @{kind}")
 
     em.add("fn main() {}")
